@@ -408,7 +408,10 @@ func main() {
 		"memory-model effects below the granularity of synchronisation operations are covered only through the detector's happens-before analysis",
 		"the k-th receive -> (k+cap)-th send edge of buffered channels is emulated per channel (can only lose a report)",
 	}
-	names := []string{"rw", "rw-nap", "search", "close", "close+rev", "close-s", "close-s+rev", "close-pause", "close-pause-u", "close-pause-u+rev", "reopen-close-pause", "reopen-close-pause+rev", "rw+rev", "stats"}
+	names := []string{"close+rev", "close-pause-u+rev", "rw", "rw-nap", "search", "close", "close-s", "close-s+rev", "close-pause", "close-pause-u", "reopen-close-pause", "reopen-close-pause+rev", "rw+rev", "stats"}
+	if c.Thorough() {
+		names = append(names, "close+rr", "close-s+rr", "rw+rr", "close-pause-u+rr", "reopen-close-pause+rr")
+	}
 	if os.Getenv("VERIF_ONLY") != "" {
 		names = strings.Split(os.Getenv("VERIF_ONLY"), ",")
 	}
